@@ -201,10 +201,33 @@ def r19d(ctx, rep, rule="R19d"):
         rep.ok(rule, "%s|table|%s" % (rule, short_path(m)), "reviewed materialiser %s no longer converts (entry unused)" % short_path(m), nontrivial=False)
 
 
+def r19e(ctx, rep, rule="R19e"):
+    facts = ctx["facts"]
+    rep.rule(rule, "equal? answers identity before it descends: in Vm::equal every call of compare_pair / compare_vector is "
+             "dominated by the call of Vm::eqv (same object => #t without looking inside). Without it, comparing a deep "
+             "structure with itself — (equal? x x), (member x l) — costs one native frame per level, like the comparison of "
+             "two distinct deep structures that is already on the findings list.")
+    f = need(rep, rule, facts, "marwood::vm::compare::<impl marwood::vm::Vm>::equal")
+    if f is None:
+        return
+    eqv = [bb for bb, t in f.calls() if (callee(t) or "").endswith("::eqv")]
+    desc = [(bb, t) for bb, t in f.calls() if (callee(t) or "").endswith(("::compare_pair", "::compare_vector"))]
+    if not desc:
+        rep.anchor_lost(rule, "descending calls in Vm::equal")
+        return
+    for i, (bb, t) in enumerate(desc):
+        ok = any(f.dominates(e, bb) for e in eqv)
+        nm = (callee(t) or "").rsplit("::", 1)[-1]
+        (rep.ok if ok else rep.fail)(rule, "%s|equal|%s" % (rule, nm), "%s is reached only after the identity test" % nm if ok else
+                                     "Vm::equal can call %s without having tested identity with eqv first: (equal? x x) on a deeply "
+                                     "nested x recurses once per level and exhausts the native stack" % nm, [t["loc"]])
+
+
 def run(ctx, rep):
     r19a(ctx, rep)
     r19b(ctx, rep)
     r19c(ctx, rep)
     r19d(ctx, rep)
+    r19e(ctx, rep)
     rep.not_decided += ["actual frame sizes and the depth at which the abort happens",
                         "recursion hidden inside external crates (num, std)"]
